@@ -69,12 +69,14 @@ func (c *SubscriptionManager) AddSubscription(remoteDevice api.DeviceRemoteInter
 	}
 
 	for _, item := range c.subscriptionEntries {
-		if reflect.DeepEqual(item.ServerFeature, serverFeature) && reflect.DeepEqual(item.ClientFeature, clientFeature) {
+		// the features are compared by identity: walking a feature object field by field would read its
+		// locks and data while other goroutines are using them
+		if item.ServerFeature == serverFeature && item.ClientFeature == clientFeature {
 			return fmt.Errorf("requested subscription is already present")
 		}
 		// the detailed discovery of a device replaces its feature objects and completes their addresses,
 		// a subscription of the same feature made before that is still the same subscription
-		if reflect.DeepEqual(item.ServerFeature, serverFeature) &&
+		if item.ServerFeature == serverFeature &&
 			item.ClientFeature.Device().Ski() == remoteDevice.Ski() &&
 			reflect.DeepEqual(item.ClientFeature.Address().Entity, clientFeature.Address().Entity) &&
 			reflect.DeepEqual(item.ClientFeature.Address().Feature, clientFeature.Address().Feature) {
